@@ -179,7 +179,9 @@ def pattern_strings(ctx, n):
            # a variable that is SET to the empty string exists: no default, no "does not exist"
            # user functions with typed parameters: literal arguments are converted (int -> uint / float64 / time.Duration, string -> named string)
            '%fu(3, 2)%', '%fd(1500, "warn")%', 'x%fu(7, 1)%y',
-           '%env("VERIF_E")%', '%env("VERIF_E", "dflt")%', '%envInt("VERIF_E")%', '%envInt("VERIF_E", 5)%', '%envInt("VERIF_NEG")%', '%envInt("VERIF_NEG", 1)%']
+           '%env("VERIF_E")%', '%env("VERIF_E", "dflt")%', '%envInt("VERIF_E")%', '%envInt("VERIF_E", 5)%', '%envInt("VERIF_NEG")%', '%envInt("VERIF_NEG", 1)%',
+           # decimal only: a leading zero is not octal, a 0x prefix is not a number (and a default does not rescue a value that is set)
+           '%envInt("VERIF_OCT")%', '%envInt("VERIF_HEX")%', '%envInt("VERIF_HEX", 3)%', 'n=%envInt("VERIF_OCT")%']
     out = list(lits) + refs + fns
     for _ in range(n):
         k = rng.randint(1, 4)
